@@ -25,7 +25,7 @@ theorem step_newBuf_ops {c : Cfg} (hc : c.Fixed) {s : State} (h : SInv s) :
       by_cases hn : n = 0
       · simp only [step, if_neg hbad, if_pos hn]; exact h
       · simp only [step, if_neg hbad, if_neg hn]
-        exact newBuf_inv h hk.1 (slotLive_false hk.2).2 _ _ _
+        exact newBuf_inv h hk.1 hk.2 _ _ _
   · intro k n sd
     by_cases hbad : k ≥ NSLOT ∨ s.slotLive k = true
     · simp only [step, if_pos hbad]; exact h
@@ -33,7 +33,7 @@ theorem step_newBuf_ops {c : Cfg} (hc : c.Fixed) {s : State} (h : SInv s) :
       by_cases hn : n = 0
       · simp only [step, if_neg hbad, if_pos hn]; exact h
       · simp only [step, if_neg hbad, if_neg hn]
-        exact newBuf_inv h hk.1 (slotLive_false hk.2).2 _ _ _
+        exact newBuf_inv h hk.1 hk.2 _ _ _
   · intro k n o sd
     by_cases hbad : k ≥ NSLOT ∨ s.slotLive k = true
     · simp only [step, if_pos hbad]; exact h
@@ -41,13 +41,13 @@ theorem step_newBuf_ops {c : Cfg} (hc : c.Fixed) {s : State} (h : SInv s) :
       by_cases hn : n = 0
       · simp only [step, if_neg hbad, if_pos hn]; exact h
       · simp only [step, if_neg hbad, if_neg hn, hc.2.2.2.2.1, if_true]
-        exact newBuf_inv h hk.1 (slotLive_false hk.2).2 _ _ _
+        exact newBuf_inv h hk.1 hk.2 _ _ _
   · intro k n sd
     by_cases hbad : k ≥ NSLOT ∨ s.slotLive k = true
     · simp only [step, if_pos hbad]; exact h
     · have hk := slotLive_false_of_not hbad
       simp only [step, if_neg hbad]
-      exact newBuf_inv h hk.1 (slotLive_false hk.2).2 _ _ _
+      exact newBuf_inv h hk.1 hk.2 _ _ _
   · intro k j
     by_cases hbad : k ≥ NSLOT ∨ s.slotLive k = true
     · simp only [step, if_pos hbad]; exact h
@@ -58,7 +58,7 @@ theorem step_newBuf_ops {c : Cfg} (hc : c.Fixed) {s : State} (h : SInv s) :
         by_cases hb : b.length = 0
         · simp only [step, if_neg hbad, hr, if_pos hb]; exact h
         · simp only [step, if_neg hbad, hr, if_neg hb]
-          exact newBuf_inv h hk.1 (slotLive_false hk.2).2 _ _ _
+          exact newBuf_inv h hk.1 hk.2 _ _ _
 
 theorem step_slice {c : Cfg} (hc : c.Fixed) {s : State} (h : SInv s) (k j off : Nat) (cnt : Int) :
     SInv (step c s (.slice k j off cnt)).1 ∧ Preserves s (step c s (.slice k j off cnt)).1 := by
@@ -79,9 +79,9 @@ theorem step_slice {c : Cfg} (hc : c.Fixed) {s : State} (h : SInv s) (k j off : 
     | error e => simp only [step, if_neg hbad, hloc, hsb]; exact ⟨h, Preserves.refl s⟩
     | ok bytes =>
       simp only [step, if_neg hbad, hloc, hsb]
-      exact ⟨dev_slice_inv h hk.1 (slotLive_false hk.2).2 (findMem_some hm).1 _ _,
+      exact ⟨dev_slice_inv h hk.1 hk.2 (findMem_some hm).1 _ _,
         preserves_of_pools_eq (fun j => by rcases j with _ | _ | j <;> rfl)⟩
-  · simp only [step, if_neg hbad, hloc]; exact ⟨h, Preserves.refl s⟩
+  · simp only [step, if_neg hbad, hloc.1]; exact ⟨h, Preserves.refl s⟩
 
 theorem step_write {c : Cfg} {s : State} (h : SInv s) (k off len seed : Nat) :
     SInv (step c s (.write k off len seed)).1 := by
@@ -95,7 +95,7 @@ theorem step_write {c : Cfg} {s : State} (h : SInv s) (k off len seed : Nat) :
     · simp only [step, hloc, if_pos hfit]; exact h
     · simp only [step, hloc, if_neg hfit]
       exact dev_write_inv h _ _
-  · simp only [step, hloc]; exact h
+  · simp only [step, hloc.1]; exact h
 
 theorem step_misc {c : Cfg} (hc : c.Fixed) {s : State} (h : SInv s) :
     (∀ b, SInv (step c s (.dev b)).1) ∧ (∀ i, SInv (step c s (.pool i)).1) ∧ (∀ i, SInv (step c s (.pfree i)).1) ∧
@@ -110,7 +110,7 @@ theorem step_misc {c : Cfg} (hc : c.Fixed) {s : State} (h : SInv s) :
       rw [h0, h1, hcond.2.2.2.1] at hacc
       simp only [poolSize] at hacc
       refine sinv_update_dev h (Nat.le_refl _) (fun j => by rcases j with _ | _ | j <;> rfl) devOK_init ?_
-        h.bufIds h.bufBelow h.bufLive h.memSlots h.memBelow
+        h.bufIds h.bufBelow h.bufLive h.memSlots h.memBelow h.cross
       show (0 : Nat) + countedBytes s.bufs = s.dev.alloc + countedBytes s.bufs
       omega
     · simp only [step, if_neg hcond]; exact h
